@@ -453,7 +453,13 @@ def main():
         sys.exit(setup())
     if a.cmd == "check":
         tier = a.tier if a.tier in ("quick", "thorough") else "quick"
-        sys.exit(check(a.pid, tier, a.seed))
+        rc = check(a.pid, tier, a.seed)
+        if os.path.realpath(REPO) != "/repo":
+            # a scratch copy was checked (VERIF_REPO): put the shared Extracted.lean back to /repo's values
+            text, _ = extract.generate("/repo")
+            with open(os.path.join(LEAN, "Momo", "Extracted.lean"), "w") as f:
+                f.write(text)
+        sys.exit(rc)
     if a.cmd == "replay":
         rp = json.load(open(a.path))
         sys.exit(check(rp["property"], rp["tier"], rp["seed"]))
